@@ -342,6 +342,14 @@ class Runner:
         self.cpu_limit = cpu_limit
         self.wall_limit = wall_limit
         self.batch_no = 0
+        self.live: list = []
+
+    def close(self) -> None:
+        """kill every child still alive (children run in their own sessions, so nothing else would)"""
+        for h in self.live:
+            if h["proc"].poll() is None:
+                self.kill(h)
+        self.live = []
 
     def env(self) -> dict:
         hc = self.scratch / "hashcache"
@@ -362,7 +370,9 @@ class Runner:
             stderr=open(d / "stderr.txt", "w"),
             start_new_session=True,
         )
-        return {"proc": p, "dir": d, "cases": cases}
+        h = {"proc": p, "dir": d, "cases": cases}
+        self.live.append(h)
+        return h
 
     @staticmethod
     def kill(h) -> None:
@@ -404,7 +414,7 @@ class Runner:
                 prog = None
             cpu = tree_cpu(h["proc"].pid)
             if prog is None:
-                if time.time() - t_start > self.wall_limit * 3:
+                if time.time() - t_start > self.wall_limit * 6:
                     self.kill(h)
                     raise core.Infra("batch child did not start")
             else:
